@@ -483,7 +483,9 @@ class AModel(Model):
             root = self.kwval(kws, 'root')
             name = args[0] if args else ('opaque', 'noname')
             p = ('call', ('lib', 'os.path.join'), (root, name), ()) if root is not None else name
-            return self.prim(st, 'MKDIR', (p,), line, IO_TOKENS, val=p)
+            # pox.mkdir returns the absolute path of what it created
+            rv = p if root is not None else ('call', ('lib', 'os.path.abspath'), (p,), ())
+            return self.prim(st, 'MKDIR', (p,), line, IO_TOKENS, val=rv)
         if full == 'pox.walk':
             pat = self.kwval(kws, 'patterns')
             v = ('ev', 'list', self.newid())
@@ -577,6 +579,12 @@ class AModel(Model):
             return [R(st, f[1])]
         if full == 'dict' and len(args) == 1 and not kws and args[0][0] == 'dict':
             return [R(st, args[0])]
+        if full == 'dict' and len(args) <= 1 and all(a[0] == 'dict' for a in args) and kws and all(k[0] == 'dstar' and k[1][0] == 'dict' for k in kws):
+            # dict(adict, **kwds) of literal dicts is the merged literal
+            items = list(args[0][1]) if args else []
+            for k in kws:
+                items.extend(k[1][1])
+            return [R(st, ('dict', tuple(items)))]
         if full == 'next' and args:
             outs = [R(st, ('call', f, args, kws))]
             if self.exc and len(args) == 1:
